@@ -330,3 +330,502 @@ Proof.
     destruct ((a =? 125) && (b =? 125)); [|discriminate]. injection HPA as <-. rewrite !nlen_cons in *. lia. }
   rewrite !nlen_cons in Hle. lia.
 Qed.
+
+(* ---- the main loop against the reference tokenizer ---- *)
+Local Notation o := opt_html.
+Local Notation HTML := gen_ContextHTML.
+
+(* states of the lexer that differ only in their position bookkeeping *)
+Definition same_lex (l l' : lexer) : Prop :=
+  l_src l' = l_src l /\ l_base l' = l_base l /\ l_out l' = l_out l /\ same_fields l l'.
+Lemma same_lex_refl l : same_lex l l.
+Proof. repeat split. Qed.
+Lemma same_lex_trans a b c : same_lex a b -> same_lex b c -> same_lex a c.
+Proof. intros (A1 & A2 & A3 & A4) (B1 & B2 & B3 & B4). split; [congruence|]. split; [congruence|]. split; [congruence|eapply same_fields_trans; eauto]. Qed.
+Lemma same_core_lex l l' : same_core l l' -> same_fields l l' -> same_lex l l'.
+Proof. intros (A & [B _] & C) F. repeat split; try assumption; apply F. Qed.
+Lemma same_lex_shows l l' : same_lex l l' -> shows l' = shows l.
+Proof. intros (_ & _ & H & _). unfold shows. rewrite H. reflexivity. Qed.
+
+Definition absoff (st : mst) : N := l_base (m_l st) + m_p st.
+Definition rest (st : mst) : bytes := drop (m_p st) (l_src (m_l st)).
+
+(* the relation between the state of the lexer and the state of the reference *)
+Definition Rel (st : mst) (rs : rstate) : Prop :=
+  let l := m_l st in
+  match rs with
+  | RData => l_ctx l = HTML /\ l_tctx l = HTML
+  | RInTag tag => l_ctx l = gen_ContextTag /\ l_tag l = tag /\ (raw_elem tag = false -> l_tctx l = HTML)
+  | RValue tag attr q =>
+    l_ctx l = gen_ContextQuotedAttr /\ m_quote st = q /\ (q = 34 \/ q = 39) /\ l_tag l = tag /\ l_att l = attr
+    /\ (raw_elem tag = false -> l_tctx l = HTML) /\ raw_elem tag && bytes_eqb attr s_type = false
+  | _ => False
+  end.
+
+(* the lexer and the reference stand at the same offset with the same shows behind them, and the reference ends with w *)
+Definition Coupled (w : list (N * N)) (st : mst) : Prop :=
+  m_p st <= len (m_l st) /\ is_bytes (l_src (m_l st)) = true /\
+  exists rs rf acc, shows (m_l st) = rev acc /\ (rest st = [] \/ Rel st rs) /\
+                    ref_run2 o rf rs (absoff st) (rest st) acc = Some w.
+
+(* ---- the reference, one byte at a time ---- *)
+Lemma ref_nil rf rs off acc w : ref_run2 o rf rs off [] acc = Some w -> w = rev acc.
+Proof. destruct rf; [discriminate|]. cbn [ref_run2]. destruct rs; intros H; try discriminate; injection H as <-; reflexivity. Qed.
+
+Definition not_raw (rs : rstate) : Prop := match rs with RRaw _ _ => False | ROutside => False | _ => True end.
+
+(* one step of the reference outside script and style elements *)
+Lemma ref_run2_eq f rs off c r acc :
+  not_raw rs ->
+  ref_run2 o (S f) rs off (c :: r) acc =
+  if (c =? 123) && hd_is r 123 then
+    match ctx_of rs, skip_show2 o (skipn 1 r) with
+    | Some cx, Some r' => ref_run2 o f rs (off + (nlen (c :: r) - nlen r')) r' ((off, cx) :: acc)
+    | _, _ => None
+    end
+  else if (c =? 123) && (hd_is r 37 || hd_is r 35) then None
+  else match fst (rstep2 o rs c r) with
+       | ROutside => None
+       | rs' => ref_run2 o f rs' (off + 1 + N.of_nat (snd (rstep2 o rs c r))) (skipn (snd (rstep2 o rs c r)) r) acc
+       end.
+Proof.
+  intros Hn. destruct rs; try contradiction; cbn [ref_run2];
+    (destruct ((c =? 123) && hd_is r 123); [reflexivity|]);
+    (destruct ((c =? 123) && (hd_is r 37 || hd_is r 35)); [reflexivity|]);
+    match goal with |- context [rstep2 o ?st c r] => destruct (rstep2 o st c r) as [rs' k] end; cbn [fst snd]; destruct rs'; reflexivity.
+Qed.
+
+(* a byte that starts no show and leaves the reference inside the fragment *)
+Lemma ref_byte rf rs off c r acc w :
+  not_raw rs ->
+  ref_run2 o rf rs off (c :: r) acc = Some w ->
+  ((c =? 123) && hd_is r 123 = false) ->
+  exists rf', rf = S rf' /\ (c =? 123) && (hd_is r 37 || hd_is r 35) = false /\
+    fst (rstep2 o rs c r) <> ROutside /\
+    ref_run2 o rf' (fst (rstep2 o rs c r)) (off + 1 + N.of_nat (snd (rstep2 o rs c r))) (skipn (snd (rstep2 o rs c r)) r) acc = Some w.
+Proof.
+  intros Hn H Hns. destruct rf as [|rf']; [discriminate|]. rewrite (ref_run2_eq _ _ _ _ _ _ Hn), Hns in H.
+  exists rf'. split; [reflexivity|].
+  destruct ((c =? 123) && (hd_is r 37 || hd_is r 35)); [discriminate|]. split; [reflexivity|].
+  destruct (fst (rstep2 o rs c r)); try discriminate; (split; [discriminate|exact H]).
+Qed.
+
+(* a show *)
+Lemma ref_show rf rs off c r acc w :
+  not_raw rs ->
+  ref_run2 o rf rs off (c :: r) acc = Some w ->
+  ((c =? 123) && hd_is r 123 = true) ->
+  exists rf' cx r', rf = S rf' /\ ctx_of rs = Some cx /\ skip_show2 o (skipn 1 r) = Some r' /\
+    ref_run2 o rf' rs (off + (nlen (c :: r) - nlen r')) r' ((off, cx) :: acc) = Some w.
+Proof.
+  intros Hn H Hs. destruct rf as [|rf']; [discriminate|]. rewrite (ref_run2_eq _ _ _ _ _ _ Hn), Hs in H.
+  destruct (ctx_of rs) as [cx|]; [|discriminate]. destruct (skip_show2 o (skipn 1 r)) as [r'|]; [|discriminate].
+  exists rf', cx, r'. auto.
+Qed.
+
+(* ---- pieces of the lexer ---- *)
+Lemma flush_text_sim st :
+  psafeT (flush_text st) (fun l1 => l_src l1 = rest st /\ l_base l1 = absoff st /\ same_fields (m_l st) l1 /\ shows l1 = shows (m_l st)).
+Proof.
+  unfold flush_text, rest, absoff. destruct (N.ltb_spec 0 (m_p st)) as [Hlt|Hge].
+  - unfold emit_text. destruct (emit_at _ _ _ _ gen_tokenText (m_p st) (m_l st)) as [l1| | |] eqn:E; cbn; try exact I.
+    destruct (emit_at_sim _ _ _ _ _ _ _ _ E) as (_ & A & B & C & D).
+    change (gen_tokenText =? gen_tokenLeftBraces) with false in D. rewrite app_nil_r in D. auto.
+  - cbn. assert (m_p st = 0) by lia. rewrite H, N.add_0_r. split; [reflexivity|]. split; [reflexivity|]. split; [apply same_fields_refl|reflexivity].
+Qed.
+
+Lemma emit0_sim typ l :
+  typ <> gen_tokenLeftBraces ->
+  psafeT (emit typ 0 l) (fun l1 => l_src l1 = l_src l /\ l_base l1 = l_base l /\ same_fields l l1 /\ shows l1 = shows l).
+Proof.
+  intros Ht. unfold emit. destruct (emit_at _ _ _ _ typ 0 l) as [l1| | |] eqn:E; cbn; try exact I.
+  destruct (emit_at_sim _ _ _ _ _ _ _ _ E) as (_ & A & B & C & D).
+  apply N.eqb_neq in Ht. rewrite Ht, app_nil_r in D. rewrite N.add_0_r in B. auto.
+Qed.
+
+(* the end of an iteration outside Markdown *)
+Lemma bottom_sim st c :
+  l_ctx (m_l st) <> gen_ContextTabCodeBlock -> l_ctx (m_l st) <> gen_ContextSpacesCodeBlock -> l_ctx (m_l st) <> gen_ContextMarkdown ->
+  psafeT (bottom st c)
+    (fun r => match r with
+              | Again s' => same_lex (m_l st) (m_l s') /\ m_quote s' = m_quote st /\
+                            (m_p s' = m_p st + 1 \/ (c = 10 /\ get (l_src (m_l st)) (m_p st + 1) = Some 13 /\ m_p s' = m_p st + 2))
+              | Stop _ => False end).
+Proof.
+  intros H1 H2 H3. unfold bottom. cbv zeta.
+  destruct (N.eqb_spec c 10) as [->|N10].
+  - eapply psafe_bind with (Q' := fun cr : bool => cr = true -> get (l_src (m_l st)) (m_p st + 1) = Some 13).
+    { change (len (newline (m_l st))) with (len (m_l st)). destruct (m_p st + 1 <? len (m_l st)); cbn [andm]; [|cbn; discriminate].
+      unfold idx_is, idx. change (l_src (newline (m_l st))) with (l_src (m_l st)).
+      destruct (get (l_src (m_l st)) (m_p st + 1)) as [x|]; cbn; [|exact I]. intros E. apply N.eqb_eq in E. subst x. reflexivity. }
+    intros cr Hcr.
+    assert (Hctx : forall v, l_ctx (if cr then mark_cdev (newline (m_l st)) else newline (m_l st)) =? v = (l_ctx (m_l st) =? v)) by (intros v; destruct cr; reflexivity).
+    rewrite !Hctx. apply N.eqb_neq in H1, H2, H3. rewrite H1, H2, H3. cbn [orb psafeE].
+    split; [destruct cr; repeat split|]. split; [reflexivity|]. cbn [m_p mset_lp]. destruct cr; [right; split; [reflexivity|split; [apply Hcr; reflexivity|lia]]|left; reflexivity].
+  - cbn [psafeE]. split; [destruct (isStartChar c); repeat split|]. split; [reflexivity|]. left. reflexivity.
+Qed.
+
+(* the contexts of the fragment are not those of Markdown *)
+Lemma ctx_not_md cx : cx = HTML \/ cx = gen_ContextTag \/ cx = gen_ContextQuotedAttr ->
+  cx <> gen_ContextTabCodeBlock /\ cx <> gen_ContextSpacesCodeBlock /\ cx <> gen_ContextMarkdown.
+Proof. intros [-> | [-> | ->]]; repeat split; discriminate. Qed.
+
+(* ---- suffixes ---- *)
+Lemma is_bytes_drop k s : is_bytes s = true -> is_bytes (drop k s) = true.
+Proof.
+  unfold drop. generalize (N.to_nat k). intros n. revert s. induction n as [|n IH]; intros s H; [exact H|].
+  destruct s as [|c t]; [reflexivity|]. cbn [skipn]. apply IH. change (is_bytes (c :: t)) with (is_byte c && is_bytes t) in H.
+  apply andb_prop in H. apply H.
+Qed.
+Lemma skip_spaces_suffix s : exists k, skip_spaces s = drop k s.
+Proof.
+  induction s as [|c t [k IH]]; [exists 0; reflexivity|]. cbn [skip_spaces]. destruct (c =? 32); [|exists 0; reflexivity].
+  exists (1 + k). rewrite <- drop_drop. exact IH.
+Qed.
+Lemma skip_ident_suffix s : exists k, skip_ident s = drop k s.
+Proof.
+  induction s as [|c t [k IH]]; [exists 0; reflexivity|]. cbn [skip_ident]. destruct (is_ident_char c); [|exists 0; reflexivity].
+  exists (1 + k). rewrite <- drop_drop. exact IH.
+Qed.
+Lemma skip_show2_bytes s r' : skip_show2 o s = Some r' -> is_bytes s = true -> is_bytes r' = true.
+Proof.
+  unfold skip_show2. cbn [o_ident opt_html]. intros H Hb.
+  destruct (skip_spaces_suffix s) as [k1 E1]. rewrite E1 in H. pose proof (is_bytes_drop k1 _ Hb) as Hb1.
+  destruct (drop k1 s) as [|c r]; [discriminate|]. destruct (is_ident_start c); [|discriminate].
+  change (is_bytes (c :: r)) with (is_byte c && is_bytes r) in Hb1. apply andb_prop in Hb1. destruct Hb1 as [_ Hb1].
+  destruct (skip_ident_suffix r) as [k2 E2]. rewrite E2 in H. pose proof (is_bytes_drop k2 _ Hb1) as Hb2.
+  destruct (skip_spaces_suffix (drop k2 r)) as [k3 E3]. rewrite E3 in H. pose proof (is_bytes_drop k3 _ Hb2) as Hb3.
+  destruct (drop k3 (drop k2 r)) as [|a [|b t]]; try discriminate. destruct ((a =? 125) && (b =? 125)); [|discriminate].
+  injection H as <-. change (is_bytes (a :: b :: t)) with (is_byte a && (is_byte b && is_bytes t)) in Hb3.
+  apply andb_prop in Hb3. destruct Hb3 as [_ Hb3]. apply andb_prop in Hb3. apply Hb3.
+Qed.
+
+Lemma rest_cons st : m_p st < len (m_l st) -> exists c r, rest st = c :: r /\ get (l_src (m_l st)) (m_p st) = Some c /\ r = drop (m_p st + 1) (l_src (m_l st)).
+Proof.
+  intros H. destruct (drop_cons_get _ _ H) as (c & r & Hd & Hg). exists c, r. split; [exact Hd|]. split; [exact Hg|].
+  rewrite <- drop_drop. unfold rest in *. rewrite Hd. reflexivity.
+Qed.
+Lemma hd_is_get s p x : hd_is (drop p s) x = match get s p with Some d => d =? x | None => false end.
+Proof. rewrite <- get_drop0. destruct (drop p s); reflexivity. Qed.
+
+(* ---- a show ---- *)
+Lemma show_step w st rs rf acc body :
+  m_p st <= len (m_l st) -> is_bytes (l_src (m_l st)) = true -> shows (m_l st) = rev acc -> Rel st rs ->
+  rest st = 123 :: 123 :: body ->
+  ref_run2 o rf rs (absoff st) (rest st) acc = Some w ->
+  psafeT (let* l1 := flush_text st in let* l2 := lex_show U l1 in Ok (Again (resync l2 st)))
+    (fun r => match r with Again s' => Coupled w s' | Stop _ => False end).
+Proof.
+  intros Hp Hby Hsh HR Hrest Href.
+  assert (Hnr : not_raw rs) by (destruct rs; try contradiction; exact I).
+  rewrite Hrest in Href. destruct (ref_show _ _ _ _ _ _ _ Hnr Href eq_refl) as (rf' & cx & r' & -> & Hcx & Hsk & Hr').
+  change (skipn 1 (123 :: body)) with body in Hsk.
+  eapply psafe_bind; [apply flush_text_sim|]. intros l1 (Hs1 & Hb1 & Hf1 & Hsh1).
+  assert (Hby1 : is_bytes (l_src l1) = true) by (rewrite Hs1; apply is_bytes_drop; exact Hby).
+  rewrite Hrest in Hs1.
+  eapply psafe_bind; [apply (lex_show_sim l1 body r' Hs1 Hsk Hby1)|]. intros l2 (Hs2 & Hf2 & Hsh2 & Hb2).
+  cbn [psafeE]. unfold Coupled. cbn [m_l m_p resync]. split; [lia|].
+  split; [rewrite Hs2; apply (skip_show2_bytes body); [exact Hsk|]; rewrite Hs1 in Hby1; change (is_bytes (123 :: 123 :: body)) with (is_byte 123 && (is_byte 123 && is_bytes body)) in Hby1; exact Hby1|].
+  exists rs, rf', ((absoff st, cx) :: acc).
+  assert (Hctx1 : l_ctx l1 = cx).
+  { destruct Hf1 as (A & _). rewrite A. destruct rs; cbn in HR, Hcx; try contradiction; try discriminate.
+    - destruct HR as [H _]. rewrite H. injection Hcx as <-. reflexivity.
+    - destruct HR as [H _]. rewrite H. injection Hcx as <-. reflexivity. }
+  split; [rewrite Hsh2, Hsh1, Hsh, Hb1, Hctx1; reflexivity|].
+  split.
+  - right. destruct Hf1 as (A1 & A2 & A3 & A4 & _), Hf2 as (B1 & B2 & B3 & B4 & _).
+    destruct rs; cbn in HR |- *; try contradiction; cbn [m_l m_quote resync]; rewrite ?B1, ?B2, ?B3, ?B4, ?A1, ?A2, ?A3, ?A4; exact HR.
+  - unfold absoff, rest. cbn [m_l m_p resync]. rewrite N.add_0_r. change (drop 0 (l_src l2)) with (l_src l2). rewrite Hs2, Hb2, Hb1, Hs1. exact Hr'.
+Qed.
+
+(* ---- bytes ---- *)
+Lemma isAlpha_is_letter c : c < 256 -> isAlpha c = is_letter c.
+Proof.
+  intros H. apply eqb_prop. apply (forall_bytes (fun c => Bool.eqb (isAlpha c) (is_letter c))); [vm_compute; reflexivity|exact H].
+Qed.
+Lemma isASCIISpace_is_ws c : c < 256 -> isASCIISpace c = is_ws c.
+Proof.
+  intros H. apply eqb_prop. apply (forall_bytes (fun c => Bool.eqb (isASCIISpace c) (is_ws c))); [vm_compute; reflexivity|exact H].
+Qed.
+
+Lemma Rel_lex st s' rs : same_lex (m_l st) (m_l s') -> m_quote s' = m_quote st -> Rel st rs -> Rel s' rs.
+Proof.
+  intros (_ & _ & _ & (A1 & A2 & A3 & A4 & _)) Hq. destruct rs; cbn; try contradiction; rewrite ?A1, ?A2, ?A3, ?A4, ?Hq; auto.
+Qed.
+
+(* a carriage return changes nothing for the reference in the states of the relation *)
+Lemma cr_step st rs rf off r acc w :
+  Rel st rs -> ref_run2 o rf rs off (13 :: r) acc = Some w -> exists rf', ref_run2 o rf' rs (off + 1) r acc = Some w.
+Proof.
+  intros HR H. assert (Hnr : not_raw rs) by (destruct rs; try contradiction; exact I).
+  destruct (ref_byte _ _ _ _ _ _ _ Hnr H eq_refl) as (rf' & _ & _ & _ & H').
+  exists rf'. destruct rs; try contradiction.
+  - cbn in H'. rewrite ?N.add_0_r in H'. exact H'.
+  - cbn in H'. rewrite ?N.add_0_r in H'. exact H'.
+  - destruct HR as (_ & _ & Hq & _). destruct Hq as [-> | ->]; cbn in H'; rewrite ?N.add_0_r in H'; exact H'.
+Qed.
+
+(* after the context specific part of an iteration that went on to `bottom` *)
+Lemma bottom_couple w st st2 c r rs' rf' acc :
+  rest st = c :: r -> m_p st < len (m_l st) -> is_bytes (l_src (m_l st)) = true ->
+  same_lex (m_l st) (m_l st2) -> m_p st2 = m_p st ->
+  l_ctx (m_l st2) = HTML \/ l_ctx (m_l st2) = gen_ContextTag \/ l_ctx (m_l st2) = gen_ContextQuotedAttr ->
+  shows (m_l st) = rev acc -> Rel st2 rs' ->
+  ref_run2 o rf' rs' (absoff st + 1) r acc = Some w ->
+  psafeT (bottom st2 c) (fun x => match x with Again s' => Coupled w s' | Stop _ => False end).
+Proof.
+  intros Hrest Hp Hby Hl2 Hp2 Hctx Hsh HR Href.
+  destruct (ctx_not_md _ Hctx) as (N1 & N2 & N3).
+  eapply psafe_mono; [apply (bottom_sim st2 c N1 N2 N3)|].
+  intros [s'|s']; [|intros []]. intros (Hl' & Hq' & Hp').
+  pose proof (same_lex_trans _ _ _ Hl2 Hl') as Hl. destruct Hl as (Es & Eb & Eo & Ef).
+  assert (HR' : Rel s' rs') by (eapply Rel_lex; eassumption).
+  assert (Hr : r = drop (m_p st + 1) (l_src (m_l st))).
+  { unfold rest in Hrest. rewrite <- drop_drop, Hrest. reflexivity. }
+  unfold Coupled. rewrite Es. split; [|split; [exact Hby|]].
+  { destruct Hp' as [-> | (_ & Hg & ->)]; rewrite Hp2; [unfold len in *; rewrite Es; lia|].
+    apply get_some in Hg. unfold len. rewrite Es. rewrite (proj1 Hl2), Hp2 in Hg. lia. }
+  unfold absoff, rest. rewrite Es, Eb. unfold shows. rewrite Eo. fold (shows (m_l st)).
+  destruct Hp' as [-> | (-> & Hg & ->)]; rewrite Hp2.
+  - exists rs', rf', acc. split; [exact Hsh|]. split; [right; exact HR'|]. rewrite N.add_assoc, <- Hr. exact Href.
+  - rewrite (proj1 Hl2), Hp2 in Hg.
+    assert (Hr13 : r = 13 :: drop (m_p st + 2) (l_src (m_l st))).
+    { rewrite Hr. assert (Hlt : m_p st + 1 < nlen (l_src (m_l st))) by (apply get_some in Hg; exact Hg).
+      destruct (drop_cons_get _ _ Hlt) as (b & t & Hd & Hg'). rewrite Hg in Hg'. injection Hg' as <-. rewrite Hd. f_equal.
+      replace (m_p st + 2) with (m_p st + 1 + 1) by lia. rewrite <- drop_drop, Hd. reflexivity. }
+    rewrite Hr13 in Href. destruct (cr_step _ _ _ _ _ _ _ HR' Href) as [rf'' H''].
+    exists rs', rf'', acc. split; [exact Hsh|]. split; [right; exact HR'|].
+    replace (l_base (m_l st) + (m_p st + 2)) with (absoff st + 1 + 1) by (unfold absoff; lia). exact H''.
+Qed.
+
+(* ---- names ---- *)
+Lemma to_lower_from_ascii s : forall f, (length s <= f)%nat -> forallb (fun c => c <? 128) s = true -> to_lower_from U f s = map lower s.
+Proof.
+  induction s as [|c t IH]; intros f Hf H; [destruct f; reflexivity|].
+  destruct f as [|f]; [cbn in Hf; lia|]. cbn [forallb] in H. apply andb_prop in H. destruct H as [Hc Ht].
+  cbn [to_lower_from map]. rewrite Hc. unfold lower at 1. f_equal. apply IH; [cbn in Hf; lia|exact Ht].
+Qed.
+Lemma to_lower_ascii s : forallb (fun c => c <? 128) s = true -> to_lower U s = map lower s.
+Proof. intros H. unfold to_lower. apply to_lower_from_ascii; [lia|exact H]. Qed.
+
+Definition stop_byte (c : N) : bool := (c =? 62) || (c =? 47) || isASCIISpace c || (c =? 123).
+
+(* in front of a byte that ends a tag name, the reference in the tag name behaves as in the tag *)
+Lemma tagname_to_intag rf nm off s acc w :
+  (s = [] \/ exists c t, s = c :: t /\ c < 256 /\ stop_byte c = true) ->
+  ref_run2 o rf (RTagName nm) off s acc = Some w -> ref_run2 o rf (RInTag nm) off s acc = Some w.
+Proof.
+  intros [->|(c & t & -> & Hc & Hst)] H.
+  - destruct rf; [discriminate|]. exact H.
+  - destruct rf as [|rf']; [discriminate|]. rewrite ref_run2_eq in H |- * by exact I. cbn [ctx_of] in *.
+    destruct ((c =? 123) && hd_is t 123); [discriminate|].
+    destruct ((c =? 123) && (hd_is t 37 || hd_is t 35)); [discriminate|].
+    unfold stop_byte in Hst. rewrite (isASCIISpace_is_ws c Hc) in Hst. cbn [rstep2] in *.
+    destruct (is_ws c) eqn:Ew; [exact H|]. destruct (N.eqb_spec c 62) as [->|N62]; [exact H|].
+    cbn [orb] in Hst. rewrite orb_false_r in Hst.
+    assert (Hc2 : c = 47 \/ c = 123) by (apply orb_prop in Hst; destruct Hst as [E|E]; apply N.eqb_eq in E; auto).
+    destruct Hc2 as [-> | ->]; cbn in H; discriminate.
+Qed.
+
+Definition ascii (s : bytes) : bool := forallb (fun c => c <? 128) s.
+
+Lemma take_snoc_range s p0 q c : p0 <= q -> get s q = Some c -> take (q + 1 - p0) (drop p0 s) = take (q - p0) (drop p0 s) ++ [c].
+Proof.
+  intros H Hg. replace (q + 1 - p0) with (q - p0 + 1) by lia. apply take_snoc. rewrite get_drop. replace (p0 + (q - p0)) with q by lia. exact Hg.
+Qed.
+
+(* the loop of scanTag against the reference in a tag name *)
+Definition tagJ (L : lexer) (p0 : N) (acc w : list (N * N)) (st : lexer * N) : Prop :=
+  same_lex L (fst st) /\ p0 < snd st /\ snd st <= len L /\
+  exists rf nm, ref_run2 o rf (RTagName nm) (l_base L + snd st) (drop (snd st) (l_src L)) acc = Some w /\
+                nm = map lower (take (snd st - p0) (drop p0 (l_src L))) /\ ascii (take (snd st - p0) (drop p0 (l_src L))) = true.
+
+Lemma tag_loop_sim L p0 acc w fuel st0 :
+  is_bytes (l_src L) = true -> tagJ L p0 acc w st0 ->
+  psafeT (loop fuel tag_body st0)
+    (fun st => tagJ L p0 acc w st /\ (snd st = len L \/ exists c, get (l_src L) (snd st) = Some c /\ stop_byte c = true)).
+Proof.
+  intros Hby H0. apply (psafe_loop tag_body (tagJ L p0 acc w)); [|exact H0].
+  intros [l1 q] HJ. pose proof HJ as (Hl & Hq0 & Hq1 & rf & nm & Href & Hnm & Hasc). cbn [fst snd] in *.
+  unfold tag_body. assert (Hsrc : l_src l1 = l_src L) by apply Hl.
+  assert (Hlen : len l1 = len L) by (unfold len; rewrite Hsrc; reflexivity). rewrite Hlen.
+  destruct (N.ltb_spec q (len L)) as [Hlt|Hge]; cbn [negb]; [|cbn; split; [exact HJ|left; lia]].
+  pget c Hc. rewrite Hsrc in Hc. pose proof (is_bytes_get _ _ _ Hby Hc) as Hc256.
+  fold (stop_byte c). destruct (stop_byte c) eqn:Est; [cbn; split; [exact HJ|right; eauto]|].
+  (* the reference accepts the byte: a letter, a digit or a hyphen *)
+  destruct (drop_cons_get _ _ Hlt) as (c' & r & Hdr & Hg). rewrite Hc in Hg. injection Hg as <-. rewrite Hdr in Href.
+  unfold stop_byte in Est. apply orb_false_elim in Est. destruct Est as [Est E123]. apply orb_false_elim in Est. destruct Est as [Est Esp].
+  apply orb_false_elim in Est. destruct Est as [E62 E47].
+  assert (Hns : (c =? 123) && hd_is r 123 = false) by (rewrite E123; reflexivity).
+  destruct (ref_byte rf (RTagName nm) _ _ _ _ _ I Href Hns) as (rf' & -> & _ & Hno & Hcont).
+  cbn [rstep2] in Hno, Hcont. rewrite <- (isASCIISpace_is_ws c Hc256), Esp, E62 in Hno, Hcont.
+  destruct (is_letter c || (48 <=? c) && (c <=? 57) || (c =? 45)) eqn:Eok; [|cbn in Hno; contradiction].
+  assert (Hc128 : c < 128).
+  { apply orb_prop in Eok. destruct Eok as [Eok|Eok]; [apply orb_prop in Eok; destruct Eok as [Eok|Eok]|].
+    - unfold is_letter, lower in Eok. destruct ((65 <=? c) && (c <=? 90)) eqn:E; b2p; lia.
+    - b2p. lia.
+    - apply N.eqb_eq in Eok. lia. }
+  apply N.ltb_lt in Hc128. rewrite Hc128. cbn [psafeE]. cbn [fst snd] in Hcont. rewrite N.add_0_r in Hcont.
+  unfold tagJ. cbn [fst snd]. split; [eapply same_lex_trans; [exact Hl|repeat split]|]. split; [lia|]. split; [apply N.ltb_lt in Hc128; lia|].
+  exists rf', (nm ++ [lower c]). split.
+  - rewrite N.add_assoc, <- drop_drop, Hdr. exact Hcont.
+  - assert (Hpq : p0 <= q) by lia. rewrite (take_snoc_range _ _ _ _ Hpq Hc). split; [rewrite map_app, Hnm; reflexivity|].
+    unfold ascii in *. rewrite forallb_app, Hasc. cbn. rewrite Hc128. reflexivity.
+Qed.
+
+Definition same_lex_src (l l' : lexer) : Prop := l_src l' = l_src l /\ l_base l' = l_base l.
+
+(* the end of an iteration that does not go through `bottom` *)
+Lemma couple_again w st l' q rs' rf' acc :
+  is_bytes (l_src (m_l st)) = true -> same_lex_src (m_l st) l' -> q <= len (m_l st) ->
+  shows l' = rev acc -> (drop q (l_src (m_l st)) = [] \/ Rel (mset_lp l' q st) rs') ->
+  ref_run2 o rf' rs' (l_base (m_l st) + q) (drop q (l_src (m_l st))) acc = Some w ->
+  Coupled w (mset_lp l' q st).
+Proof.
+  intros Hby (Es & Eb) Hq Hsh HR Href. unfold Coupled, absoff, rest. cbn [m_l m_p mset_lp]. unfold len. rewrite Es, Eb.
+  split; [exact Hq|]. split; [exact Hby|]. exists rs', rf', acc. auto.
+Qed.
+
+(* text: the less-than sign and every other byte *)
+Lemma data_step w st c r rf acc :
+  Rel st RData -> rest st = c :: r -> m_p st < len (m_l st) -> is_bytes (l_src (m_l st)) = true -> shows (m_l st) = rev acc ->
+  (c =? 123) && hd_is r 123 = false ->
+  ref_run2 o rf RData (absoff st) (c :: r) acc = Some w ->
+  psafeT (let* (st1, cont) := html_lt U st c in if cont then Ok (Again st1) else bottom st1 c)
+    (fun x => match x with Again s' => Coupled w s' | Stop _ => False end).
+Proof.
+  intros HR Hrest Hp Hby Hsh Hns Href. destruct HR as [Hctx Htctx].
+  destruct (ref_byte rf RData _ _ _ _ _ I Href Hns) as (rf' & -> & _ & Hno & Hcont).
+  destruct (rest_cons st Hp) as (c' & r' & Hrest' & Hgc & Hr). rewrite Hrest in Hrest'. injection Hrest' as <- <-.
+  unfold html_lt. destruct (N.eqb_spec c 60) as [->|N60]; cbn [negb].
+  2:{ (* not a tag *)
+      rewrite bind_ok. cbv iota beta. apply N.eqb_neq in N60. cbn [rstep2 rstep] in Hno, Hcont. rewrite N60 in Hno, Hcont.
+      cbn [fst snd] in Hcont. rewrite N.add_0_r in Hcont.
+      eapply (bottom_couple w st st c r RData rf' acc); auto; try apply same_lex_refl; split; assumption. }
+  cbv zeta. rewrite !bind_assoc.
+  (* CDATA sections are outside the fragment *)
+  eapply psafe_bind with (Q' := fun iscd : bool => iscd = true -> get (l_src (m_l st)) (m_p st + 1) = Some 33).
+  { destruct ((l_ctx (m_l st) =? HTML) && (m_p st + 8 <? len (m_l st))); cbn [andm]; [|cbn; discriminate].
+    unfold idx_is, idx. destruct (get (l_src (m_l st)) (m_p st + 1)) as [x|]; cbn; [|exact I]. intros E. apply N.eqb_eq in E. subst x. reflexivity. }
+  intros iscd Hcd.
+  assert (Hd : forall d, get (l_src (m_l st)) (m_p st + 1) = Some d -> exists t, r = d :: t).
+  { intros d Hg. rewrite Hr. assert (Hlt : m_p st + 1 < nlen (l_src (m_l st))) by (apply get_some in Hg; exact Hg).
+    destruct (drop_cons_get _ _ Hlt) as (b & t & Hdb & Hgb). rewrite Hg in Hgb. injection Hgb as <-. eauto. }
+  destruct iscd.
+  { exfalso. destruct (Hd 33 (Hcd eq_refl)) as [t ->]. cbn in Hno. contradiction. }
+  cbn [andb]. unfold scan_tag. change (len (addcol 1 (m_l st))) with (len (m_l st)).
+  change (l_src (addcol 1 (m_l st))) with (l_src (m_l st)).
+  rewrite !bind_assoc.
+  destruct (N.eqb_spec (m_p st + 1) (len (m_l st))) as [Eend|Nend].
+  - (* the source ends with the less-than sign *)
+    rewrite !bind_ok. cbn [negb]. rewrite !bind_ok. cbn [nonempty psafeE].
+    assert (Hre : r = []) by (rewrite Hr; unfold drop, len in *; rewrite Eend, nlen_eq, Nat2N.id; apply skipn_all).
+    apply (couple_again w st _ _ RData rf' acc Hby); [split; reflexivity|lia|exact Hsh|left; rewrite <- Hr; exact Hre|].
+    rewrite Hre in Hcont. cbn in Hcont. rewrite N.add_0_r in Hcont. unfold absoff in Hcont. rewrite N.add_assoc, <- Hr, Hre. exact Hcont.
+  - unfold idx at 1. change (l_src (addcol 1 (m_l st))) with (l_src (m_l st)).
+    assert (Hlt1 : m_p st + 1 < len (m_l st)) by lia.
+    destruct (get_lt _ _ Hlt1) as [d Hgd]. rewrite Hgd. cbn [bind].
+    destruct (Hd d Hgd) as [t Hrt]. pose proof (is_bytes_get _ _ _ Hby Hgd) as Hd256.
+    rewrite (isAlpha_is_letter d Hd256). rewrite Hrt in Hno, Hcont. cbn [rstep2 rstep] in Hno, Hcont.
+    destruct (is_letter d) eqn:El; cbn [negb].
+    + (* a tag name *)
+      cbn [fst snd] in Hcont. rewrite N.add_0_r in Hcont.
+      (* the reference reads the first letter of the name *)
+      assert (Hd128 : d < 128) by (unfold is_letter, lower in El; destruct ((65 <=? d) && (d <=? 90)) eqn:E; b2p; lia).
+      assert (Hns2 : (d =? 123) && hd_is t 123 = false).
+      { destruct (N.eqb_spec d 123) as [->|_]; [discriminate El|reflexivity]. }
+      destruct (ref_byte rf' (RTagName []) _ _ _ _ _ I Hcont Hns2) as (rf2 & -> & _ & Hno2 & Hcont2).
+      cbn [rstep2] in Hno2, Hcont2.
+      assert (Hws : is_ws d = false).
+      { unfold is_ws. unfold is_letter, lower in El. destruct ((65 <=? d) && (d <=? 90)) eqn:E; b2p;
+          repeat (apply orb_false_intro); apply N.eqb_neq; lia. }
+      assert (H62 : (d =? 62) = false) by (apply N.eqb_neq; intros ->; discriminate El).
+      rewrite Hws, H62, El in Hno2, Hcont2. cbn [orb fst snd app] in Hcont2. rewrite N.add_0_r in Hcont2.
+      set (L := addcol 1 (m_l st)).
+      assert (HJ0 : tagJ L (m_p st + 1) acc w (addcol 1 L, m_p st + 1 + 1)).
+      { unfold tagJ. cbn [fst snd]. split; [repeat split|]. split; [lia|]. split; [change (len L) with (len (m_l st)); lia|].
+        exists rf2, [lower d]. change (l_src L) with (l_src (m_l st)). change (l_base L) with (l_base (m_l st)).
+        assert (Htk : take (m_p st + 1 + 1 - (m_p st + 1)) (drop (m_p st + 1) (l_src (m_l st))) = [d]).
+        { replace (m_p st + 1 + 1 - (m_p st + 1)) with 1 by lia. apply take_1. rewrite get_drop0. exact Hgd. }
+        rewrite Htk. split; [|split; [reflexivity|cbn; apply N.ltb_lt in Hd128; rewrite Hd128; reflexivity]].
+        assert (Hdt : drop (m_p st + 1 + 1) (l_src (m_l st)) = t).
+        { rewrite <- drop_drop, <- Hr, Hrt. reflexivity. }
+        rewrite Hdt. unfold absoff in Hcont2. replace (l_base (m_l st) + (m_p st + 1 + 1)) with (l_base (m_l st) + m_p st + 1 + 1) by lia. exact Hcont2. }
+      rewrite !bind_assoc. eapply psafe_bind; [apply (tag_loop_sim L (m_p st + 1) acc w _ _ Hby HJ0)|].
+      intros [l1 q] [(Hl1 & Hq0 & Hq1 & rfq & nm & Hrefq & Hnm & Hasc) Hstop]. cbn [fst snd] in *.
+      change (len L) with (len (m_l st)) in *. change (l_src L) with (l_src (m_l st)) in *. change (l_base L) with (l_base (m_l st)) in *.
+      destruct (N.ltb_spec (len (m_l st)) q) as [Hbad|_]; [lia|]. rewrite !bind_ok. cbv iota beta.
+      rewrite (to_lower_ascii _ Hasc), <- Hnm.
+      assert (Hne : nonempty nm = true).
+      { rewrite Hnm. replace (q - (m_p st + 1)) with (1 + (q - (m_p st + 1 + 1))) by lia. rewrite take_add, (take_1 _ d) by (rewrite get_drop0; exact Hgd). reflexivity. }
+      rewrite Hne. cbn [psafeE].
+      destruct Hl1 as (Es1 & Eb1 & Eo1 & (F1 & F2 & F3 & F4 & F5)).
+      match goal with |- Coupled w (mset_lp ?l3 q st) => set (L3 := l3) end.
+      assert (HL3 : l_src L3 = l_src (m_l st) /\ l_base L3 = l_base (m_l st) /\ l_out L3 = l_out (m_l st) /\ l_ctx L3 = gen_ContextTag /\ l_tag L3 = nm
+                    /\ (raw_elem nm = false -> l_tctx L3 = HTML)).
+      { unfold L3, raw_elem. destruct (bytes_eqb nm s_script); [|destruct (bytes_eqb nm s_style)]; cbn;
+          repeat split; try assumption; try discriminate. intros _. rewrite F2. exact Htctx. }
+      destruct HL3 as (G1 & G2 & G3 & G4 & G5 & G6).
+      apply (couple_again w st L3 q (RInTag nm) rfq acc Hby); [split; assumption|exact Hq1|unfold shows; rewrite G3; exact Hsh| |].
+      * right. cbn. auto.
+      * apply tagname_to_intag; [|exact Hrefq].
+        destruct Hstop as [Hend|(cq & Hgq & Hsq)].
+        -- left. unfold drop, len in *. rewrite Hend, nlen_eq, Nat2N.id. apply skipn_all.
+        -- right. assert (Hltq : q < nlen (l_src (m_l st))) by (apply get_some in Hgq; exact Hgq).
+           destruct (drop_cons_get _ _ Hltq) as (b & tq & Hdq & Hgb). rewrite Hgq in Hgb. injection Hgb as <-.
+           exists cq, tq. split; [exact Hdq|]. split; [eapply is_bytes_get; eassumption|exact Hsq].
+    + (* no tag *)
+      rewrite !bind_ok. cbn [nonempty psafeE].
+      assert (Hrs : fst (if (d =? 47) || (d =? 33) || (d =? 63) then (ROutside, 0%nat) else (RData, 0%nat)) = RData).
+      { destruct ((d =? 47) || (d =? 33) || (d =? 63)); [cbn in Hno; contradiction|reflexivity]. }
+      destruct ((d =? 47) || (d =? 33) || (d =? 63)); [cbn in Hno; contradiction|]. cbn [fst snd] in Hcont. rewrite N.add_0_r in Hcont.
+      apply (couple_again w st _ _ RData rf' acc Hby); [split; reflexivity|lia|exact Hsh|right; cbn; auto|].
+      unfold absoff in Hcont. rewrite N.add_assoc, <- Hr, Hrt. exact Hcont.
+Qed.
+
+(* inside a quoted attribute value *)
+Lemma value_step w st c r rf acc tag attr q :
+  Rel st (RValue tag attr q) -> rest st = c :: r -> m_p st < len (m_l st) -> is_bytes (l_src (m_l st)) = true -> shows (m_l st) = rev acc ->
+  (c =? 123) && hd_is r 123 = false ->
+  ref_run2 o rf (RValue tag attr q) (absoff st) (c :: r) acc = Some w ->
+  psafeT (let* (st1, cont) := attr_ctx U HTML st c in if cont then Ok (Again st1) else bottom st1 c)
+    (fun x => match x with Again s' => Coupled w s' | Stop _ => False end).
+Proof.
+  intros HR Hrest Hp Hby Hsh Hns Href. pose proof HR as (Hctx & Hq & Hq2 & Htag & Hatt & Htctx & Hnt).
+  destruct (ref_byte rf (RValue tag attr q) _ _ _ _ _ I Href Hns) as (rf' & -> & _ & Hno & Hcont).
+  cbn [rstep2 rstep] in Hno, Hcont.
+  unfold attr_ctx. cbv zeta. rewrite Hctx, Hq.
+  change (gen_ContextQuotedAttr =? gen_ContextQuotedAttr) with true. change (gen_ContextQuotedAttr =? gen_ContextUnquotedAttr) with false.
+  cbn [andb orb]. rewrite orb_false_r.
+  destruct (N.eqb_spec c q) as [->|Ncq]; cbn [negb].
+  2:{ rewrite bind_ok. cbv iota beta. cbn [fst snd] in Hcont. rewrite N.add_0_r in Hcont.
+      eapply (bottom_couple w st st c r (RValue tag attr q) rf' acc); auto; try apply same_lex_refl; try (right; right; exact Hctx). }
+  cbn [fst snd] in Hcont. rewrite N.add_0_r in Hcont.
+  assert (Hc62 : (q =? 62) = false) by (destruct Hq2 as [-> | ->]; reflexivity).
+  (* the state after the value: the text is flushed when the attribute holds a URL *)
+  rewrite !bind_assoc.
+  eapply psafe_bind with (Q' := fun st1 => rest st1 = q :: r /\ absoff st1 = absoff st /\ m_p st1 < len (m_l st1) /\ is_bytes (l_src (m_l st1)) = true
+                                       /\ shows (m_l st1) = rev acc /\ same_fields (m_l st) (m_l st1) /\ m_quote st1 = 0).
+  { destruct (m_url (mset_quote 0 st)).
+    - eapply psafe_bind; [apply (flush_text_sim (mset_quote 0 st))|]. intros l1 (Hs1 & Hb1 & Hf1 & Hsh1).
+      eapply psafe_bind; [apply (emit0_sim gen_tokenEndURL l1); discriminate|]. intros l2 (Hs2 & Hb2 & Hf2 & Hsh2).
+      cbn [psafeE]. unfold rest, absoff in *. cbn [m_l m_p m_quote mset_url mset_quote resync] in *.
+      change (drop 0 (l_src l2)) with (l_src l2). rewrite N.add_0_r, Hs2, Hb2, Hs1, Hb1, Hsh2, Hsh1.
+      split; [exact Hrest|]. split; [reflexivity|]. split; [unfold len; rewrite Hs2, Hs1, Hrest, nlen_cons; lia|].
+      split; [apply is_bytes_drop; exact Hby|]. split; [exact Hsh|]. split; [eapply same_fields_trans; eassumption|reflexivity].
+    - assert (Hsame : rest (mset_quote 0 st) = q :: r /\ absoff (mset_quote 0 st) = absoff st /\ m_p (mset_quote 0 st) < len (m_l (mset_quote 0 st))
+                      /\ is_bytes (l_src (m_l (mset_quote 0 st))) = true /\ shows (m_l (mset_quote 0 st)) = rev acc
+                      /\ same_fields (m_l st) (m_l (mset_quote 0 st)) /\ m_quote (mset_quote 0 st) = 0).
+      { repeat split; assumption. }
+      cbn [m_l mset_quote]. rewrite Hatt, Htag.
+      destruct (bytes_eqb attr s_type) eqn:Ety; [|cbn; exact Hsame].
+      rewrite andb_true_r in Hnt. unfold raw_elem in Hnt. apply orb_false_elim in Hnt. destruct Hnt as [N1 N2].
+      rewrite N1, N2. cbn. exact Hsame. }
+  intros st1 (Hr1 & Ho1 & Hp1 & Hby1 & Hsh1 & Hf1 & Hq1). cbv beta iota. rewrite Hc62.
+  set (st2 := mset_lp (set_tidx 0 (set_att [] (set_ctx gen_ContextTag (m_l st1)))) (m_p st1) st1).
+  destruct Hf1 as (F1 & F2 & F3 & F4 & F5).
+  apply (bottom_couple w st2 st2 q r (RInTag tag) rf' acc); try apply same_lex_refl; try reflexivity; auto.
+  - cbn. split; [reflexivity|]. split; [rewrite F3; exact Htag|]. rewrite F2. exact Htctx.
+  - unfold st2, absoff in *. cbn [m_l m_p mset_lp l_base set_tidx set_att set_ctx]. rewrite Ho1.
+    exact Hcont.
+Qed.
